@@ -165,11 +165,8 @@ theorem C02_collection_stamps (conv : Nat → Nat) (col : Collection) :
     root was created** — no operation, on any thread, under any placement of collector cycles,
     overload or thread exit, invents or alters a trace id (invariant `Prov`, `Lemmas/Prov*.lean`) -/
 theorem C02_trace_ids_from_roots (p : Program) :
-    ∀ o ∈ (run Sys.init p).2, ∀ rs, o = .report (some rs) → ∀ r ∈ rs, r.traceId ∈ sampledRootTraces p := by
-  intro o ho rs hrs
-  refine run_prov (sampledRootTraces p) p Sys.init ?_ (Prov.init _) o ho rs hrs
-  intro x hx tr htr
-  exact List.mem_flatMap.mpr ⟨x, hx, htr⟩
+    ∀ o ∈ (run Sys.init p).2, ∀ rs, o = .report (some rs) → ∀ r ∈ rs, r.traceId ∈ sampledRootTraces p :=
+  fun o ho rs hrs => (run_prov_init p o ho).1 rs hrs
 
 /-! non-vacuity -/
 example : (Ctr.mk 7 0 0).idAfter 1 = 7 * 2 ^ 32 + 1 := by decide
